@@ -1985,6 +1985,63 @@ fn check_nested(cx: &mut Cx, seed: u64, dir: &std::path::Path)
 	check_asm_model(cx, &project, dir);
 }
 
+/// `>>` with a NEGATIVE left operand (`negshift <seed>`): label differences `lo - hi`, `0 - N`, masked; the shift is arithmetic (the sign
+/// is kept), before and behind the definitions of the labels
+fn check_negshift(cx: &mut Cx, seed: u64, dir: &std::path::Path)
+{
+	let mut rng = Rng::new(seed);
+	let input = format!("negshift {seed}");
+	let base = 0x2000_0000u32 + 4 * rng.below(64) as u32;
+	let n = 2 + rng.below(4) as usize;
+	let gap = 4 * (1 + rng.below(40)) as i64;   // hi - lo, a few statements of padding
+	let mut forms: Vec<(String, u32, i64)> = Vec::new();   // text, width, value before masking
+	for _ in 0..n
+	{
+		let k = *rng.pick(&[0i64, 1, 2, 3, 7, 31, 32, 60, 62, 63]);
+		let nn = 1 + rng.below(1 << 20) as i64;
+		forms.push(match rng.below(5)
+		{
+			0 => (format!("((lo - hi) >> {k}) & 0xFF"), 1, (-gap) >> k),
+			1 => (format!("((0 - {nn}) >> {k}) & 0xFFFF"), 2, (-nn) >> k),
+			2 => (format!("((lo - hi - {nn}) >> {k}) & 0xFFFFFFFF"), 4, (-gap - nn) >> k),
+			3 => (format!("(-{nn} >> {k}) & 0xFF"), 1, (-nn) >> k),
+			_ => (format!("(((lo - hi) * {nn}) >> {k}) & 0xFFFF"), 2, (-gap * nn) >> k),
+		});
+	}
+	let mut text = format!(".addr 0x{base:X};\n");
+	let mut want: Vec<u8> = Vec::new();
+	let emit = |text: &mut String, want: &mut Vec<u8>| for (e, w, v) in &forms
+	{
+		text.push_str(&format!(".du{} {e};\n", 8 * w));
+		let mask: i64 = match w {1 => 0xFF, 2 => 0xFFFF, _ => 0xFFFF_FFFF};
+		want.extend_from_slice(&((v & mask) as u64).to_le_bytes()[..*w as usize]);
+	};
+	emit(&mut text, &mut want);
+	text.push_str("lo:\n");
+	for _ in 0..gap / 4 {text.push_str(".du32 0x5A5A5A5A;\n"); want.extend_from_slice(&0x5A5A_5A5Au32.to_le_bytes());}
+	text.push_str("hi:\n");
+	emit(&mut text, &mut want);
+	let project = Project::single(text.as_bytes());
+	project.write(dir);
+	cx.report.hit("right shift of a negative left operand: program");
+	match run_real(dir)
+	{
+		Err(p) => {cx.report.case(Some("panic")); cx.report.oracle_fail(input, format!("panic: {p}"));},
+		Ok(o) =>
+		{
+			let got: Vec<u8> = o.image.iter().filter(|(a, _)| **a >= base).map(|(_, b)| *b).collect();
+			cx.report.case(Some(&hex(&got[..got.len().min(24)])));
+			if !(o.assemble_ok && o.close_err.is_none() && o.finalize && o.errors.is_empty()) {cx.report.oracle_fail(input.clone(), format!("refused: {:?}; program {text:?}", o.errors.iter().take(2).collect::<Vec<_>>()));}
+			else if got != want
+			{
+				let k = got.iter().zip(want.iter()).position(|(a, b)| a != b).unwrap_or(0);
+				cx.report.oracle_fail(input.clone(), format!("byte {k}: image {}, arithmetic shift gives {}; program {:?}", hex(&got[..got.len().min(40)]), hex(&want[..want.len().min(40)]), &text[..text.len().min(400)]));
+			}
+		},
+	}
+	check_asm_model(cx, &project, dir);
+}
+
 /// `.include` applied through `DirectiveList::process` on a fresh `Context` (no current file: the path is taken as it is
 /// when absolute): must behave as the same include written in a main file — same image, same success
 fn include_without_current_file(cx: &mut Cx, dir: &std::path::Path)
@@ -2181,6 +2238,7 @@ pub fn run(id: &str, cx: &mut Cx)
 			self_include(cx, &dir, rest.trim().parse().unwrap_or(1));
 			return;
 		}
+		if let Some(seed) = input.strip_prefix("negshift ").and_then(|x| x.trim().parse::<u64>().ok()) {check_negshift(cx, seed, &dir); return;}
 		if let Some(seed) = input.strip_prefix("nested ").and_then(|x| x.trim().parse::<u64>().ok()) {check_nested(cx, seed, &dir); return;}
 		if let Some(k) = input.strip_prefix("large ").and_then(|x| x.trim().parse::<usize>().ok()) {check_large(cx, id, k, &dir); return;}
 		if let Some(seed) = input.strip_prefix("dulist ").and_then(|x| x.trim().parse::<u64>().ok()) {check_du_list(cx, seed, &dir); return;}
@@ -2255,6 +2313,7 @@ non-trivial = non-empty image; distinct = distinct images".to_owned();
 			for k in 0..large_programs().len() {check_large(cx, id, k, &dir);}
 			for _ in 0..if cx.thorough() {3000} else {300} {let seed = cx.rng.next(); check_du_list(cx, seed, &dir);}
 			for _ in 0..if cx.thorough() {10_000} else {800} {let seed = cx.rng.next(); check_nested(cx, seed, &dir);}
+			for _ in 0..if cx.thorough() {3000} else {300} {let seed = cx.rng.next(); check_negshift(cx, seed, &dir);}
 			let n = if cx.thorough() {100_000} else {12_000};
 			let mut made = 0;
 			let mut tries = 0;
